@@ -22,3 +22,14 @@ package kv
 //@   ensures [value-only-on-a-decision] result1 ==> scanDecisions == old(scanDecisions) + 1
 //@   ensures [at-most-one-decision] scanDecisions <= old(scanDecisions) + 1
 //@   loop 1 invariant [undecided-so-far] scanDecisions == old(scanDecisions)
+
+// C17 (lock check of a point read): a read at version t is answered with a Locked key
+// error - and does not look at any value - whenever the key carries a lock with start
+// timestamp <= t, however old that lock is; without such a lock the value comes from
+// exactly one GetValue at the requested version. The reader's lookups are recorded in the
+// percolator package's ghost state (lastLockFound / lastLockTs, readSelections).
+//@ func handleGet
+//@   property C17
+//@   ensures [lock-at-or-below-t-blocks] req != nil && lockLookups == old(lockLookups) + 1 && lastLockFound && lastLockTs <= req.Version && result2 == nil ==> result1 != nil && result1.Locked != nil && result1.Locked.LockVersion == lastLockTs && readSelections == old(readSelections)
+//@   ensures [one-lock-lookup-per-read] req != nil ==> lockLookups == old(lockLookups) + 1
+//@   ensures [unlocked-read-selects-once] req != nil && result2 == nil && result1 == nil ==> readSelections == old(readSelections) + 1
